@@ -5,7 +5,9 @@ documentation; each loaded column is related to the *raw stored arrays* of the g
 to its convert_units=False counterpart under varied (BoxSize, VelZSpace_to_kms) pairs."""
 
 import re
+import os
 import shutil
+import tempfile
 
 import numpy as np
 
@@ -210,7 +212,14 @@ def check(run):
             hps = [int(rng.choice([0, 1, 2, 3, 3, 4, 9])) for _ in range(nslab)] if k % 4 == 2 else None
             if hps:
                 hps[int(rng.integers(0, nslab))] = 3
-            T = gen_catalog.make_tree(rng, nslab=nslab, box=box, velz=velz, smallratio=bool(k % 2), halos_per_slab=hps, int_header=bool(k % 3 == 1), big_ints=bool(k % 4 == 3))
+            # every other box-layout catalogue is written at the very same path as the one before it (removed in between): nothing
+            # learnt about a path may outlive the files
+            reuse = os.path.join(tempfile.gettempdir(), f'verif_c05_samepath_{os.getpid()}') if k % 2 == 0 else None
+            if reuse:
+                shutil.rmtree(reuse, ignore_errors=True)
+                os.makedirs(reuse)
+                run.count('catalogues_written_at_a_reused_path')
+            T = gen_catalog.make_tree(rng, nslab=nslab, box=box, velz=velz, smallratio=bool(k % 2), halos_per_slab=hps, int_header=bool(k % 3 == 1), big_ints=bool(k % 4 == 3), root=reuse)
             slabs = T['slab_inds']
         try:
             for cleaned in ((True,) if lc else (True, False)):
